@@ -77,7 +77,7 @@ def register(PROPS, h):
               "started at least one fetch; distinct by event-log hash."),
         assumptions=SVC_TB + ["the environment only produces event orders the real Wire produces: one session per peer at a time, attempted before outbound connected, Io::Fetch for an unconnected peer dropped, worker results in any order and at any later time",
                               "Wire::worker_result's rule (forward iff a connection to that NodeId exists) is transcribed, not executed"],
-        gates=dict(quick={"schedules.result-delivered-after-disconnect-and-reconnect": 1000, "schedules.with-two-or-more-fetch-tasks": 10000, "subscriber-results-observed": 30000, "systematic.schedules": 20000},
+        gates=dict(quick={"schedules.result-delivered-after-disconnect-and-reconnect": 1000, "schedules.with-two-or-more-fetch-tasks": 8000, "subscriber-results-observed": 30000, "systematic.schedules": 20000},
                    thorough={"schedules.result-delivered-after-disconnect-and-reconnect": 10000, "systematic.schedules": 100000}),
         exhaustive=dict(quick="all event sequences of length 5 over the reduced 2-peer/1-repository alphabet (12 symbols)", thorough="all event sequences of length 6 over the reduced alphabet"),
         runs=dict(quick=[native("h-node", "C16")], thorough=[native("h-node", "C16"), native("h-node", "C16", profile="release")]),
